@@ -333,16 +333,13 @@ def eval_api(case):
     L = len(ref)
     d = scratch_dir()
     fa = os.path.join(d, 'c15_%d.fa' % os.getpid())
-    with open(fa, 'w') as f:
-        masked = ref
-        if case.get('mask'):
-            # a soft-masked (lower case) stretch of the reference file, as in the UCSC / Ensembl soft-masked genomes
-            a_, n_ = case['mask']
-            masked = ref[:a_] + ref[a_:a_ + n_].lower() + ref[a_ + n_:]
-        f.write('>%s\n%s\n' % (CONTIG, masked))
-    if os.path.exists(fa + '.fai'):
-        os.remove(fa + '.fai')
-    pysam.faidx(fa)
+    masked = ref
+    if case.get('mask'):
+        # a soft-masked (lower case) stretch of the reference file, as in the UCSC / Ensembl soft-masked genomes
+        a_, n_ = case['mask']
+        masked = ref[:a_] + ref[a_:a_ + n_].lower() + ref[a_ + n_:]
+    from ..common.fragsim import write_fasta
+    write_fasta(fa, [(CONTIG, masked)])
     h = header([(CONTIG, L)])
     desc = build(case)
     try:
@@ -439,14 +436,10 @@ def eval_cli(case):
         rng = random.Random(case['refseed'])
         refs = {}
         fa = os.path.join(d, 'ref.fa')
-        with open(fa, 'w') as f:
-            for c, ln in contigs:
-                s = ''.join(rng.choice('ACGT') for _ in range(ln))
-                refs[c] = s
-                f.write('>%s\n' % c)
-                for i in range(0, ln, 80):
-                    f.write(s[i:i + 80] + '\n')
-        pysam.faidx(fa)
+        from ..common.fragsim import write_fasta
+        for c, ln in contigs:
+            refs[c] = ''.join(rng.choice('ACGT') for _ in range(ln))
+        write_fasta(fa, [(c, refs[c]) for c, ln in contigs], width=80)
         bam_in, bam_out = os.path.join(d, 'in.bam'), os.path.join(d, 'out.bam')
         write_bam(bam_in, contigs, records)
         extra = ['--consensus', '-ref', fa, '-umi_hamming_distance', '0'] + (['--no_source_reads'] if case['no_source_reads'] else [])
